@@ -68,12 +68,17 @@ func verifC09(nops int) {
 	}
 	sc.ContractMgr = mgr
 	vrt.Assert(s.Play(e.Root.Blockid) == nil, "genesis-plays")
-	// prior state: k1 = "one" written by a confirmed transaction, k2 and k3 never written
+	// prior state: k1 = "one" written by a confirmed transaction, k2 written and deleted again by
+	// confirmed transactions (a tombstone with a current version), k3 never written
 	t0 := vkit.WithKey(vkit.Tx("t0", nil, nil), "c09", "k1", nil, 0, []byte("one"))
+	vkit.WithKey(t0, "c09", "k2", nil, 0, []byte("two"))
+	tdel := vkit.WithKey(vkit.Tx("tdel", nil, nil), "c09", "k2", []byte("t0"), 1, []byte{0})
 	// the contract's address CT holds 4 tokens; A keeps 5 to pay fees with
 	t1 := vkit.Tx("t1", []*protos.TxInput{vkit.In(e.RootTx.Txid, 0, "A", big.NewInt(9))}, []*protos.TxOutput{vkit.Out("CT", big.NewInt(4), 0), vkit.Out("A", big.NewInt(5), 0)})
 	b1 := vkit.Block(e.Root.Blockid, 1, []*lpb.Transaction{vkit.Coinbase("cb1", "M", []byte{7}), t0, t1})
 	vrt.Assert(e.L.ConfirmBlock(b1, false).Succ && s.Play(b1.Blockid) == nil, "prior-state-built")
+	b2 := vkit.Block(b1.Blockid, 2, []*lpb.Transaction{vkit.Coinbase("cb2", "M", []byte{7}), tdel})
+	vrt.Assert(e.L.ConfirmBlock(b2, false).Succ && s.Play(b2.Blockid) == nil, "prior-state-built")
 
 	// the program
 	ops := make([]verifOp, nops)
